@@ -12,6 +12,7 @@ pristine process parses the flattened text (reference); then the files are mater
 locations and readers are registered, the real entry point is called and the two are compared.
 """
 import importlib
+import importlib.util
 import io
 import os
 import shutil
@@ -32,7 +33,8 @@ ISOLATE = True
 BUDGET = {'quick': (16, 110), 'thorough': (16, 1500)}
 RULE = ('Hypothesis-generated cases: 1-6 static-registration files forming an include tree (<=3 '
         'include levels; a child may be included twice), each file = 0-6 statements over an '
-        '8-key space (2 probes x 2 params x scope {"", s}) + macros + a per-file marker + stdlib '
+        '8-key space (2 probes x 2 params x scope {"", s}) + macro definitions + constant-valued '
+        'bindings + a per-file marker + stdlib '
         'imports, so bindings before and after every include collide with the included file; '
         'names are relative (f.gin, c14sub/f.gin, c14sub/deep/f.gin), absolute or '
         'package-relative (c14pkg.sub/f.gin via a generated package on sys.path); every file is '
@@ -42,7 +44,9 @@ RULE = ('Hypothesis-generated cases: 1-6 static-registration files forming an in
         'place holding a distinct content; optionally one file is unreadable everywhere (decoys '
         'only) and one statement targets an unknown configurable/module; entry point in '
         '{parse_config, parse_config_file, parse_config_files_and_bindings (1-3 files, extra '
-        'bindings, finalize_config default/False/True)} x skip_unknown {not passed, True, False}. '
+        'bindings, finalize_config default/False/True)} x skip_unknown {not passed, True, False}; '
+        'sys.path holds the generated package dir, optionally also the current directory or '
+        'plain directories (namespace packages) named like the directory part of the names. '
         'Non-trivial = >=2 include levels were parsed and a binding was overridden across a file '
         'boundary, or some parsed name had >=2 readable candidates in different (location, '
         'reader) places. Distinct = distinct case JSON.')
@@ -61,8 +65,11 @@ ASSUMPTIONS = [
     'when a statement on an unknown name raises, only the fact that it raises is asserted',
     'the same module is always imported in the same form (config_str picks one representative '
     'per module among differently aliased imports, which is outside this property)',
-    'generated packages are regular packages (__init__.py); "" is removed from sys.path in the '
-    'child so that directories under the current directory are not namespace packages',
+    'packages that hold a generated file are regular packages (__init__.py). Plain directories '
+    'on sys.path named like the directory part of a name (nspath=2), and the current directory '
+    'on sys.path (nspath=1), are generated too, but such a namespace package never holds a file '
+    'the file reader would not find first at the same location, so the expected result is the '
+    'same whether or not the package reader looks inside namespace packages',
 ]
 FLOORS = {
     'outcome:ok': 0.25, 'outcome:ioerror': 0.10, 'outcome:unknown-raised': 0.05,
@@ -72,7 +79,8 @@ FLOORS = {
     'multi:bindings-override-file': 0.03, 'multi:finalize-default': 0.05,
     'default-skip-with-unknown:config': 0.01, 'default-skip-with-unknown:file': 0.01,
     'default-skip-with-unknown:multi': 0.01, 'missing:abs-direct': 0.003,
-    'selected:custom-reader': 0.05, 'selected:package-reader': 0.03, 'decoy-present': 0.10,
+    'nspath:namespace-dir-consulted': 0.05, 'selected:custom-reader': 0.05,
+    'selected:package-reader': 0.03, 'decoy-present': 0.10,
 }
 TECHNIQUE = ('model-based differential testing: Hypothesis-generated file trees and placements; '
              'a resolution/flattening reference model written from the property text; the '
@@ -149,21 +157,24 @@ def _file():
   })
 
 
+_unknown = st.fixed_dictionaries({'file': _small, 'at': _small, 'form': st.integers(0, 2)})
+
+
 def strategy():
   files = st.sampled_from([1, 2, 3, 3, 4, 4, 5, 6]).flatmap(
       lambda n: st.lists(_file(), min_size=n, max_size=n))
   return st.fixed_dictionaries({
-      'entry': st.sampled_from(['config', 'file', 'file', 'multi', 'multi']),
+      'entry': st.sampled_from(['config', 'file', 'multi']),
       'skip': st.sampled_from(['default', 'default', 'true', 'false']),
       'finalize': st.sampled_from(['default', 'default', 'false', 'true']),
       'roots': st.integers(1, 3),
       'locs': st.lists(st.sampled_from(['abs', 'abs', 'rel']), min_size=1, max_size=3),
       'nread': st.integers(1, 3),
+      'nspath': st.sampled_from([0, 0, 1, 2]),
       'files': files,
       'bindings': st.lists(_stmt().filter(lambda s: s[0] in 'bmuk'), min_size=0, max_size=3),
       'missing': st.one_of(st.none(), st.none(), st.none(), _small, _small),
-      'unknown': st.one_of(st.none(), st.none(), st.fixed_dictionaries(
-          {'file': _small, 'at': _small, 'form': st.integers(0, 2)})),
+      'unknown': st.one_of(st.none(), st.none(), st.none(), _unknown, _unknown),
   })
 
 
@@ -374,6 +385,7 @@ class Model:
   def flatten(self):
     """Returns (lines, expected trees, fault or None, labels)."""
     self.lines = []
+    self.resolved = []
     self.labels = set()
     self.last = {}                 # binding key -> file that bound it last
     self.stack = []
@@ -396,6 +408,7 @@ class Model:
 
   def _file(self, i):
     cands = self.candidates(self.names[i])
+    self.resolved.append((i, cands[0] if cands else None))
     if not cands:
       raise _Fault('missing', i)
     l0, r0, tag = cands[0]
@@ -456,6 +469,15 @@ class Model:
       self.lines.append(self._render_item(i, tag, idx, item))
     self.stack.pop()
     return node
+
+
+def _known_namespace_dir(case, verdict):
+  """Open finding: directory part is a plain dir on sys.path -> TypeError (package reader)."""
+  return (bool(case.get('nspath')) and 'TypeError' in verdict.get('detail', '') and
+          verdict.get('kind') in ('unexpected-error', 'unreadable-file-wrong-exception'))
+
+
+KNOWN = {'namespace_dir_on_sys_path': _known_namespace_dir}
 
 
 # ----------------------------------------------------------------------------- reference side
@@ -523,6 +545,29 @@ def _check_tree(got, exp, where):
     _check_tree(g, e, f'{where}/{k}')
 
 
+def _namespace_dir_consulted(m):
+  """Label only: will the package reader be asked about a name whose directory part is a plain
+  directory on sys.path (a namespace package)?"""
+  for i, winner in m.resolved:
+    name = m.names[i]
+    if name.startswith('/'):
+      continue
+    last = len(m.prefixes) - 1 if winner is None else winner[0]
+    for li in range(last + 1):
+      if winner is not None and li == last and winner[1] == 0:
+        continue               # the file reader answers first at the winning location
+      key = m._sys_key(_join(m.prefixes[li], name))     # pylint: disable=protected-access
+      if key is None:
+        continue
+      try:
+        spec = importlib.util.find_spec(key[0])
+      except (ImportError, ValueError):
+        continue
+      if spec is not None and spec.origin is None:
+        return True
+  return False
+
+
 def _tree_imports_differ(trees):
   seen = []
 
@@ -569,7 +614,24 @@ def _check(case, tmp):
   os.chdir(m.cwd)
   sys.path[:] = [p for p in sys.path if p not in ('', '.')]
   sys.path.insert(0, m.pydir)
+  nspath = case.get('nspath', 0)
+  if nspath == 1:
+    # the current directory on the Python path (interactive session, `python script.py`): every
+    # plain directory below it is a namespace package
+    sys.path.insert(1, '')
+    labels.add('nspath:cwd-on-sys.path')
+  elif nspath == 2:
+    # plain directories (no __init__.py) on the Python path named like the directory part of
+    # the generated names; they never contain the file
+    for i, name in enumerate(m.names):
+      for prefix in m.prefixes:
+        key = m._sys_key(_join(prefix, name))     # pylint: disable=protected-access
+        if key is not None:
+          os.makedirs(m.pydir + '/' + key[0].replace('.', '/'), exist_ok=True)
+    labels.add('nspath:plain-dirs-on-sys.path')
   importlib.invalidate_caches()
+  if nspath and _namespace_dir_consulted(m):
+    labels.add('nspath:namespace-dir-consulted')
   for k, prefix in enumerate(m.prefixes[1:]):
     if k % 2:
       gin.config.add_config_file_search_path(prefix)
